@@ -24,6 +24,7 @@ type Clause struct {
 	Expr  ast.Expr
 	File  string
 	Line  int
+	Pkg   string
 }
 
 type LoopSpec struct {
@@ -83,6 +84,8 @@ type GroundOb struct {
 type ContractSet struct {
 	Funcs   map[string]*Contract
 	UFuns   map[string]*Spec // uninterpreted functions (no body)
+	Config  map[string][]string
+	Axioms  []*Clause // assumed everywhere (each names the ground obligation or audit that justifies it)
 	Specs   map[string]*Spec
 	Lemmas  []*Lemma
 	Grounds []*GroundOb
@@ -305,6 +308,12 @@ func (cs *ContractSet) loadFile(path string, goFile bool, pkgName string, assume
 				return fmt.Errorf("%s:%d: duplicate spec %s", path, l.line, sp.Name)
 			}
 			cs.Specs[sp.Name] = sp
+		case "config":
+			cur, curLemma, curGlobal = nil, nil, false
+			fs := strings.Fields(rest)
+			if len(fs) > 0 {
+				cs.Config[fs[0]] = append(cs.Config[fs[0]], fs[1:]...)
+			}
 		case "ufun":
 			cur, curLemma, curGlobal = nil, nil, false
 			sp, err := parseSpec(rest+" = true", path, l.line)
@@ -318,17 +327,19 @@ func (cs *ContractSet) loadFile(path string, goFile bool, pkgName string, assume
 			curLemma = &Lemma{Name: rest, File: path, Line: l.line}
 			cs.Lemmas = append(cs.Lemmas, curLemma)
 		case "ground":
+			// ground[C07,C16] name : <Go boolean expression evaluated in-package on the real code>
 			cur, curLemma, curGlobal = nil, nil, false
-			fs := strings.Fields(rest)
-			g := &GroundOb{File: path, Line: l.line}
-			if len(fs) < 2 {
-				return fmt.Errorf("%s:%d: ground needs name and kind", path, l.line)
+			i := strings.Index(rest, ":")
+			if i < 0 {
+				return fmt.Errorf("%s:%d: ground needs 'name : expr'", path, l.line)
 			}
-			g.Name, g.Kind = fs[0], fs[1]
+			g := &GroundOb{File: path, Line: l.line, Name: strings.TrimSpace(rest[:i]), Kind: pkgName}
+			g.Args = []string{strings.TrimSpace(rest[i+1:])}
 			if label != "" {
-				g.Props = strings.Split(label, ",")
+				for _, p := range strings.Split(label, ",") {
+					g.Props = append(g.Props, strings.TrimSpace(p))
+				}
 			}
-			g.Args = splitArgsQuoted(strings.TrimSpace(strings.TrimPrefix(strings.TrimSpace(strings.TrimPrefix(rest, fs[0])), fs[1])))
 			cs.Grounds = append(cs.Grounds, g)
 		case "property":
 			ps := strings.Fields(rest)
@@ -355,6 +366,13 @@ func (cs *ContractSet) loadFile(path string, goFile bool, pkgName string, assume
 			} else {
 				curLemma.Shows = append(curLemma.Shows, c)
 			}
+		case "axiom":
+			c, err := mkClause("axiom", label, rest, l.line, nil)
+			if err != nil {
+				return err
+			}
+			c.Pkg = pkgName
+			cs.Axioms = append(cs.Axioms, c)
 		case "invariant":
 			if curGlobal {
 				c, err := mkClause("invariant", label, rest, l.line, nil)
@@ -510,7 +528,7 @@ func matchParen(s string, i int) int {
 }
 
 func loadContracts(repo, verifDir string) (*ContractSet, error) {
-	cs := &ContractSet{Funcs: map[string]*Contract{}, Specs: map[string]*Spec{}, UFuns: map[string]*Spec{}}
+	cs := &ContractSet{Funcs: map[string]*Contract{}, Specs: map[string]*Spec{}, UFuns: map[string]*Spec{}, Config: map[string][]string{}}
 	// specs + assumed first
 	for _, sub := range []string{"spec", "assumed"} {
 		files, _ := filepath.Glob(filepath.Join(verifDir, sub, "*.spec"))
